@@ -441,8 +441,13 @@ class Run:
         seen_children = set()
 
         # stamp every event object with the identity announced by the triggering thread
+        def cls_names(evs):
+            for e in evs:
+                yield e.cls
+                yield from cls_names(e.children)
+        scripted = set(n for sc in scripts.values() for n in cls_names(sc))
         for cname, c in list(ctrl.__dict__.items()):
-            if inspect.isclass(c) and cname.startswith("Event") and cname != "EventStartup":
+            if inspect.isclass(c) and (cname.startswith("Event") or cname in scripted) and cname != "EventStartup":
                 self._stamp(c)
 
         class Tracer:
